@@ -273,6 +273,32 @@ def structural_variant(rng, ts, ops=None):
     return ts, ops
 
 
+STRETCH_BASES = [2**24 - 2, 2**24 - 1, 2**24, 2**24 + 1, 2**25 - 1, 2**25, 2**31 - 3, 2**31, 2**31 + 1,
+                 10**8, 10**8 + 3, 16777218, 250_000_000, 299_999_900]
+
+
+def stretch_coords(rng, ts):
+    """chromosome-scale integer coordinates: x -> 0 for x = 0, base + g*x otherwise, with base next to
+    2^24 / 2^25 / 2^31 / 1e8 / 3e8 and g in {1, 2, 3, 8}: every breakpoint but 0 lies above 2^24, where
+    float32 (and beyond 2^31, int32) cannot represent integers, and gaps between a node's pieces are
+    1-8 bp.  Strictly increasing, so validity, order and all tree relations are unchanged."""
+    base = rng.choice(STRETCH_BASES)
+    g = rng.choice([1, 1, 2, 3, 8])
+
+    def f(x):
+        x = np.asarray(x, dtype=np.float64)
+        return np.where(x == 0, 0.0, base + g * x)
+    tables = ts.dump_tables()
+    tables.sequence_length = float(base + g * int(ts.sequence_length))
+    tables.edges.left = f(tables.edges.left)
+    tables.edges.right = f(tables.edges.right)
+    tables.sites.position = f(tables.sites.position)
+    if tables.migrations.num_rows:
+        return ts
+    tables.build_index()
+    return tables.tree_sequence()
+
+
 def exotic_variant(rng, ts, kinds=None, frac=0.4, p=0.45):
     """with probability `frac`, decorate ts with gen.exotic (valid-but-unusual inputs simulators never
     produce: extra flag bits, ALL nodes renumbered, mutations above local roots, mutation-free sites --
@@ -286,7 +312,7 @@ def exotic_variant(rng, ts, kinds=None, frac=0.4, p=0.45):
     return ts2, ("+x:" + ",".join(applied)) if applied else ""
 
 
-def any_ts(rng, diploid=False, mutations=True, max_edges=120, exotic=True, exotic_kinds=None):
+def any_ts(rng, diploid=False, mutations=True, max_edges=120, exotic=True, exotic_kinds=None, stretch=0.25):
     """the family's default mixture (bounded size: the models are evaluated inside Coq); ~40% of the
     inputs get gen.exotic decorations"""
     while True:
@@ -295,6 +321,9 @@ def any_ts(rng, diploid=False, mutations=True, max_edges=120, exotic=True, exoti
             ts, tag = exotic_variant(rng, ts, kinds=exotic_kinds)
             kind += tag
         if ts.num_edges <= max_edges and ts.num_mutations <= 150:
+            if stretch and rng.random() < stretch:
+                ts = stretch_coords(rng, ts)
+                kind += "+stretch"
             return ts, kind
 
 
